@@ -141,6 +141,15 @@ def run_adv(run, P, only=None):
                                       'part of the message the reader looks for the rest at the wrong place' % (short(l), short(rhs), p[1], p[2].rsplit('/', 1)[-1]), ctx.path())
                     del e.ts['pend:' + c]
                     return [e]
+                if op == '=' and key(rhs) == p[0] and not (env.intf(c)[0] == env.intf(c)[1] == 0):
+                    # `C = n` with n the size just transferred: the bytes went to base + C, so the new position is C + n; this is only the same
+                    # when C was 0, which is not known here
+                    run.oblige('R-STREAM-ADV', False, '%s:%s:position-set-to-transfer-size' % (name, l['f']))
+                    run.violation('R-STREAM-ADV', name, ev['loc'], 'position-set-to-transfer-size:%s' % l['f'],
+                                  '%s is SET to %s, the number of bytes just stored at base + %s, instead of being advanced by it: whenever the offset was not 0 (a unit '
+                                  'that arrives in more than two pieces) the next piece overwrites what was collected before' % (short(l), short(rhs), l['f']), ctx.path())
+                    del e.ts['pend:' + c]
+                    return [e]
                 if op == '=':
                     free = not any(isinstance(y, dict) and y.get('k') == 'mem' and ap(y) == c for y in walk(rhs))
                     run.oblige('R-STREAM-ADV', free, '%s:%s:reset' % (name, l['f']))
@@ -668,3 +677,71 @@ def run_cap_own(run, P):
         solve(f, Env(), on_event, None, None, None, key_fn=lambda e: e.ts.get('own'), on_branch=on_branch)
         run.instance('R-STREAM-CAP', '%s: %d return path(s) under an own-limit test are free of peer-set fields' % (fn, guarded[0]))
         run.require(guarded[0] > 0 or run.fixture_mode, 'R-STREAM-CAP(own limit): %s() has no return guarded by the test of a session field any more' % fn)
+
+
+def run_needed_len(run, P):
+    """R-STREAM-ADV (needed length is final): a stream reader that collects a variable-length header compares what has arrived (a progress
+    counter field: hdr_ofs, partial_read, ...) with what is needed (an expression over a local that it builds up from the bytes seen so far:
+    `hdr_ofs < 2 + extra_hdr_len`) and carries on only when enough is in.  On no path is that local increased AFTER the comparison that
+    let the function carry on: the length that was compared has to be the whole length.  A "+= 4 for the masking key" behind the test makes
+    the header count as complete while the key has not arrived -- only when a read happens to end there."""
+    from core.psts import Env, solve, relevance, apply_generic
+    run.rule('R-STREAM-ADV')
+    n = 0
+    for f in sorted(P.lib_funcs(), key=lambda f: f['name']):
+        # comparisons of a counter field with an expression over locals
+        tests = []
+        for b in f['blocks']:
+            c = (b.get('term') or {}).get('cond')
+            if c is None or len(b['succ']) != 2:
+                continue
+            c0 = strip(c)
+            if not (isinstance(c0, dict) and c0.get('k') == 'bin' and c0.get('op') in ('<', '<=', '>', '>=')):
+                continue
+            for a, o in ((c0['l'], c0['r']), (c0['r'], c0['l'])):
+                a0 = strip(a)
+                if isinstance(a0, dict) and a0.get('k') == 'mem' and a0.get('f') in COUNTERS:
+                    ls = set(ap(x) for x in walk(o) if isinstance(x, dict) and x.get('k') == 'var' and 'pi' not in x and ap(x))
+                    if ls:
+                        # the arm on which "enough has arrived": counter >= needed
+                        if a is c0['l']:
+                            enough_true = c0['op'] in ('>', '>=')
+                        else:
+                            enough_true = c0['op'] in ('<', '<=')
+                        tests.append((b['id'], ls, enough_true, b['term'].get('loc')))
+        if not tests:
+            continue
+        locals_ = set().union(*[t[1] for t in tests])
+        incs = [ev for b, ev in P.events(f) if ev['e'].get('k') == 'asg' and ev['e'].get('op') == '+=' and ap(ev['e']['l']) in locals_]
+        if not incs:
+            continue
+        name = f['name']
+        n += 1
+        run.instance('R-STREAM-ADV', '%s: the needed length is complete when it is compared with what has arrived' % name)
+
+        def is_rule_event(ev):
+            return any(ev is i for i in incs)
+        keys, R = relevance(f, is_rule_event)
+        keys = set(keys) | set(t[0] for t in tests)
+
+        def on_branch(b, s, env, ctx):
+            for bid, ls, enough_true, loc in tests:
+                if b['id'] == bid and ((s == b['succ'][0]) == enough_true):
+                    e = env.copy()
+                    e.ts['tested'] = tuple(sorted(set(env.ts.get('tested', ())) | set((l, loc) for l in ls)))
+                    return e
+            return env
+
+        def on_event(ev, env, ctx):
+            if any(ev is i for i in incs):
+                v = ap(ev['e']['l'])
+                hit = [loc for (l, loc) in env.ts.get('tested', ()) if l == v]
+                run.oblige('R-STREAM-ADV', not hit, '%s:needed-length-final' % name)
+                if hit:
+                    run.violation('R-STREAM-ADV', name, ev['loc'], 'needed-length-grows-after-test',
+                                  '%s is increased (%s) after it was compared with what has arrived (%s) and found covered: the unit is taken for complete while the bytes this '
+                                  'increase stands for may not have been received -- the result depends on where a read happened to end' %
+                                  (short(ev['e']['l']), short(ev['e'])[:40], (hit[0] or '').rsplit('/', 1)[-1]), ctx.path())
+            return None
+        solve(f, Env(), on_event, None, keys, R, key_fn=lambda e: e.ts.get('tested', ()), on_branch=on_branch)
+    run.require(n >= 1 or run.fixture_mode or run.cfg != 'base', 'R-STREAM-ADV(needed length): no reader that builds up a needed length and compares it with a progress counter found')
